@@ -176,5 +176,32 @@ CHECKS["C13"] = dict(
     design_ref="DESIGN.md §5 C13", note=_TERM_NOTE + " " + SEM_NOTE,
     technique="TLA+ SLD interpreter (SLD.tla) and least-model semantics (Semantics.tla) evaluated by TLC on recorded answers")
 
+CHECKS["C22"] = dict(
+    category="exploration",
+    text="The real sampler's random source is scripted so that every branch of coin outcomes is executed exactly once, with "
+         "random() values placed just below / above / exactly at the threshold the code is about to use (fact: r < p; AD "
+         "member: r <= p_i / remaining mass). Per branch the printed probability must equal the product of the choices "
+         "made; per program the branch masses sum to 1, the accepted mass equals P(evidence) and the accepted mass where a "
+         "query is true equals its conditional probability, the exact numbers coming from TLC (Semantics.tla). This decides "
+         "the distribution claim exactly, without statistics.",
+    design_ref="DESIGN.md §5 C22", note=SEM_NOTE + " One iteration of tasks.sample.sample is mirrored; continuous "
+    "distributions and sample/value/previous builtins are not covered.",
+    technique="exhaustive enumeration of the real sampler's coin branches (scripted randomness) judged by the TLA+ Semantics oracle (TLC)")
+
+CHECKS["C33"] = dict(
+    category="exploration",
+    text="Indexed rule sets r(I, ...) with indices from 1..15 in shuffled file order and applicability conditions; the answers "
+         "of cut/2 on the real library are judged by TLC against CutAnswers (JudgeSLD.tla over SLD.tla): the answers of the "
+         "applicable rule with the smallest index in standard order, and that index.",
+    design_ref="DESIGN.md §5 C33", note=_TERM_NOTE, technique="TLA+ definition of the soft cut over the SLD interpreter, evaluated by TLC on recorded answers")
+CHECKS["C28"] = dict(
+    category="exploration",
+    text="PyPl.tla transcribes py2pl/pl2py; TLC checks on a bounded value universe that the encoding round-trips for every "
+         "value without a tuple in the last position of a tuple, and finds the counterexample otherwise (design level). The "
+         "real pl2py(py2pl(v)) and problog_export'ed functions returning v are executed on a bounded-exhaustive + random "
+         "universe (ints, floats, strings with quotes, nested lists / tuples) and judged by TLC (JudgePyPl.tla).",
+    design_ref="DESIGN.md §5 C28", note="Trusted: TLC, the value (de)serialiser of the harness. Depth <= 3; floats on the quarter grid.",
+    technique="TLA+ model of the value encoding checked by TLC + recorded round trips of the real functions judged by TLC")
+
 NOT_YET = "check not built yet in this round (planned in DESIGN.md §5); not claimed"
 NOT_APPLICABLE = {}
